@@ -195,7 +195,7 @@ func checkSegmentMruChain(p *core.Program, r *core.Report) {
 			continue
 		}
 		nCalls++
-		if !pathEndsWith(core.CallArgs(cs)[0], "segmentMtu") {
+		if !pathEndsWith(core.Arg(cs, 0), "segmentMtu") {
 			okArg = false
 		}
 	}
@@ -221,7 +221,7 @@ func checkSegmentMruChain(p *core.Program, r *core.Report) {
 			continue
 		}
 		nNTM++
-		arg := core.CallArgs(cs)[2]
+		arg := core.Arg(cs, 2)
 		okThis := false
 		// value received from a channel (select or unary receive)
 		var ch ssa.Value
